@@ -44,7 +44,7 @@ RULE_TEXT = {
     "ITER-4": "addresses are never ordered (only ==, != and hashing)",
     "ITER-5": "no group-sized loop or linear scan is nested in a group-sized loop",
     "CG-1": "the crate's call graph is acyclic",
-    "KEY-1": "Link's PartialEq compares pointer and kind of both operands, its Hash reads no field PartialEq ignores, and both are effect-free",
+    "KEY-1": "Link's PartialEq compares pointer and kind of both operands -- evaluated on all pairs of kinds it says equal exactly for equal kinds --, its Hash reads no field PartialEq ignores, and both are effect-free",
 }
 
 PROPS = {
